@@ -43,6 +43,11 @@ void KademliaTable::add_contact(const ChunkId& chunk_id, PeerContact contact, st
         });
         holders.resize(kMaxProviders);
     }
+
+    // The locator lives as long as its longest-lived holder, not as long as the newest one.
+    for (const auto& holder : holders) {
+        locator.expires_at = std::max(locator.expires_at, holder.expires_at);
+    }
 }
 
 std::vector<PeerContact> KademliaTable::find_providers(const ChunkId& chunk_id) {
